@@ -428,17 +428,25 @@ theorem at_of_stack (vm : VM) (f : Frame) (rest : List Frame) (ip : Nat) (ft : B
 /-- the frame `KotoVm::run(0)` starts with -/
 def runFrame : Frame := { chunk := 0, barrier := true }
 
+/-- the VM after the call chain `calls` made from `run 0`, positioned at the failing instruction -/
+theorem vmAt_eq (calls : List Call) (fault : Nat) (ft : Bool) :
+    ((VM.run 0).callAll calls).at fault ft
+      = ⟨{ finalTop runFrame calls with hasCatch := ft } :: (mids runFrame calls).reverse,
+          lastChunk 0 calls, fault⟩ := by
+  have hs := callAll_stack calls runFrame [] 0 0
+  have hc := callAll_chunk calls (VM.run 0)
+  rw [List.append_nil] at hs
+  have hrun : VM.run 0 = ⟨[runFrame], 0, 0⟩ := rfl
+  rw [at_of_stack _ _ _ fault ft (hrun ▸ hs), hc]
+  rfl
+
 theorem predict_eq (calls : List Call) (fault : Nat) (ft : Bool) :
     predict calls fault ft
       = unwindGo true
           ({ finalTop runFrame calls with hasCatch := ft } :: (mids runFrame calls).reverse)
           [⟨lastChunk 0 calls, fault⟩] := by
-  have hs := callAll_stack calls runFrame [] 0 0
-  have hc := callAll_chunk calls (VM.run 0)
-  rw [List.append_nil] at hs
   unfold predict unwind
-  have hrun : VM.run 0 = ⟨[runFrame], 0, 0⟩ := rfl
-  rw [at_of_stack _ _ _ fault ft (hrun ▸ hs), hc]
+  rw [vmAt_eq]
   rfl
 
 theorem mids_barrier (calls : List Call) :
@@ -488,12 +496,15 @@ theorem mids_any (calls : List Call) :
     simp only [mids, List.any_cons]
     rw [ih]
 
-theorem trace_order (calls : List Call) (fault : Nat) (h : ∀ c ∈ calls, c.inTry = false) :
-    predict calls fault false
-      = .uncaught (⟨lastChunk 0 calls, fault⟩ :: (callSites 0 calls).reverse) := by
-  rw [predict_eq]
+/-- accumulator-general form: unwinding the stack of a `try`-free call chain from any trace so far
+appends the call sites, innermost first -/
+theorem unwind_calls (calls : List Call) (tr : List IFrame)
+    (h : ∀ c ∈ calls, c.inTry = false) :
+    unwindGo true
+        ({ finalTop runFrame calls with hasCatch := false } :: (mids runFrame calls).reverse) tr
+      = .uncaught (tr ++ (callSites 0 calls).reverse) := by
   cases calls with
-  | nil => rfl
+  | nil => simp [mids, finalTop, unwindGo, callSites, runFrame]
   | cons c rest =>
     have hc : c.inTry = false := h c (by simp)
     have hrest : ∀ x ∈ rest, x.inTry = false := fun x hx => h x (List.mem_cons_of_mem _ hx)
@@ -502,8 +513,7 @@ theorem trace_order (calls : List Call) (fault : Nat) (h : ∀ c ∈ calls, c.in
     have key := unwind_frames true
       ({ finalTop { chunk := c.callee } rest with hasCatch := false }
         :: (mids { chunk := c.callee } rest).reverse)
-      { runFrame with retIp := c.ip, hasCatch := c.inTry } []
-      [⟨lastChunk 0 (c :: rest), fault⟩]
+      { runFrame with retIp := c.ip, hasCatch := c.inTry } [] tr
       (by
         intro f hf
         rcases List.mem_cons.mp hf with hf | hf
@@ -516,6 +526,86 @@ theorem trace_order (calls : List Call) (fault : Nat) (h : ∀ c ∈ calls, c.in
     simp only [List.cons_append, List.drop_one, List.tail_cons, List.map_append, List.map_reverse,
       mids_sites, List.map_cons, List.map_nil, callSites, List.reverse_cons]
     rfl
+
+theorem trace_order (calls : List Call) (fault : Nat) (h : ∀ c ∈ calls, c.inTry = false) :
+    predict calls fault false
+      = .uncaught (⟨lastChunk 0 calls, fault⟩ :: (callSites 0 calls).reverse) := by
+  rw [predict_eq, unwind_calls calls _ h]
+  rfl
+
+/-! ### errors that cross native re-entries -/
+
+theorem trace_order_native (segs : List Seg) (tr : List IFrame)
+    (h : ∀ s ∈ segs, s.failInTry = false ∧ ∀ c ∈ s.calls, c.inTry = false) :
+    predictSegs segs tr = .uncaught (tr ++ (segs.map segFrames).flatten) := by
+  induction segs generalizing tr with
+  | nil => simp [predictSegs]
+  | cons s rest ih =>
+    have hs := h s (by simp)
+    have hrest : ∀ x ∈ rest, x.failInTry = false ∧ ∀ c ∈ x.calls, c.inTry = false :=
+      fun x hx => h x (List.mem_cons_of_mem _ hx)
+    simp only [predictSegs]
+    rw [vmAt_eq, hs.1]
+    simp only [VM.instructionFrame]
+    rw [unwind_calls s.calls _ hs.2]
+    simp only []
+    rw [ih _ hrest]
+    cases ha : s.adaptorIp <;> simp [segFrames, ha]
+
+theorem predictSegs_single (calls : List Call) (fault : Nat) (ft : Bool) :
+    predictSegs [{ calls := calls, failIp := fault, failInTry := ft }] [] = predict calls fault ft := by
+  simp only [predictSegs, predict, unwind, List.nil_append, List.append_nil]
+  generalize unwindGo true _ _ = o
+  cases o <;> rfl
+
+theorem native_reentry_same_stack (allow : Bool) (fs gs : List Frame) (b root : Frame)
+    (below : List Frame) (tr : List IFrame)
+    (hfs : ∀ f ∈ fs, f.barrier = false ∧ (f.hasCatch && allow) = false)
+    (hb : b.barrier = true ∧ (b.hasCatch && allow) = false)
+    (hgs : ∀ f ∈ gs, f.barrier = false ∧ (f.hasCatch && allow) = false)
+    (hr : root.barrier = true ∧ (root.hasCatch && allow) = false) :
+    ∃ t1, unwindGo allow (fs ++ b :: (gs ++ root :: below)) tr = .uncaught t1 ∧
+      t1 = tr ++ ((fs ++ [b]).drop 1).map (fun g => (⟨g.chunk, g.retIp⟩ : IFrame)) ∧
+      (match gs ++ [root] with
+        | [] => True
+        | g :: rest =>
+          unwindGo allow (g :: (rest ++ below)) (t1 ++ [⟨g.chunk, g.retIp⟩])
+            = .uncaught (tr ++ ((fs ++ b :: (gs ++ [root])).drop 1).map
+                (fun g => (⟨g.chunk, g.retIp⟩ : IFrame)))) ∧
+      unwindGo allow (fs ++ { b with barrier := false } :: (gs ++ root :: below)) tr
+        = .uncaught (tr ++ ((fs ++ b :: (gs ++ [root])).drop 1).map
+            (fun g => (⟨g.chunk, g.retIp⟩ : IFrame))) := by
+  refine ⟨_, unwind_frames allow fs b _ tr hfs hb, rfl, ?_, ?_⟩
+  · cases gs with
+    | nil =>
+      show unwindGo allow (root :: ([] ++ below)) _ = _
+      have := unwind_frames allow [] root below
+        ((tr ++ ((fs ++ [b]).drop 1).map (fun g => (⟨g.chunk, g.retIp⟩ : IFrame)))
+          ++ [⟨root.chunk, root.retIp⟩]) (by simp) hr
+      rw [List.nil_append] at this ⊢
+      rw [this]
+      cases fs <;> simp
+    | cons g gs' =>
+      show unwindGo allow (g :: ((gs' ++ [root]) ++ below)) _ = _
+      have := unwind_frames allow (g :: gs') root below
+        ((tr ++ ((fs ++ [b]).drop 1).map (fun g => (⟨g.chunk, g.retIp⟩ : IFrame)))
+          ++ [⟨g.chunk, g.retIp⟩]) hgs hr
+      rw [List.append_assoc]
+      rw [List.cons_append] at this
+      rw [List.singleton_append, this]
+      cases fs <;> simp
+  · have := unwind_frames allow (fs ++ { b with barrier := false } :: gs) root below tr
+      (by
+        intro f hf
+        rcases List.mem_append.mp hf with hf | hf
+        · exact hfs f hf
+        · rcases List.mem_cons.mp hf with hf | hf
+          · subst hf; exact ⟨rfl, hb.2⟩
+          · exact hgs f hf) hr
+    rw [List.append_assoc, List.cons_append] at this
+    rw [this]
+    congr 2
+    cases fs <;> simp
 
 theorem trace_caught_iff (calls : List Call) (fault : Nat) (ft : Bool) :
     predict calls fault ft = .caught ↔ (ft = true ∨ ∃ c ∈ calls, c.inTry = true) := by
